@@ -2,9 +2,13 @@
    followed by Print Assumptions.  All of them quantify over every configuration [cfg]
    (hosted services with their dispositions) and every operation history [h].
    Vocabulary (Spec.v): [declared cfg h n] service n was asked and answers "ok";
-   [hidden h n] the node application currently cannot resolve n (GetService answers nil:
-   OHide / OShow may occur anywhere in the history); [declared cfg h n] additionally requires
-   that n was resolvable when it was asked;
+   [hidden h n] the node application currently cannot resolve n (GetService answers nil: the
+   topology last published leaves n out; OHide / OShow may occur anywhere in the history);
+   [declared cfg h n] additionally requires that n was resolvable when it was asked;
+   [OTopo k] cluster membership changed, the topology was rebuilt and the node's own services
+   re-published with the node's current state (may occur anywhere); [dir] the node's service
+   directory: the own services it lists, each with the COPY of the node state taken at the last
+   topology publication ([is_topo o]: OHide / OShow / OTopo);
    [reported h n] a "retired" notification naming n was delivered; [last_pub tr] the node
    state last published to the cluster (Working at start); [obs_at cfg h o] what operation o
    shows when issued after history h. *)
@@ -57,14 +61,55 @@ Theorem C12_unreported_not_retired : forall cfg h n,
 Proof. exact unreported_not_retired. Qed.
 Print Assumptions C12_unreported_not_retired.
 
-(* hiding / showing a service changes what GetService answers and nothing else *)
+(* a topology publication - a service left out / listed again, cluster membership changed -
+   replaces the directory and changes nothing else of the controller; it shows the directory *)
 Theorem C12_hide_show_frame : forall cfg h o,
-  (exists n, o = OHide n \/ o = OShow n) ->
+  is_topo o = true ->
   nst (final cfg (h ++ [o])) = nst (final cfg h) /\ svcs (final cfg (h ++ [o])) = svcs (final cfg h) /\
   sup (final cfg (h ++ [o])) = sup (final cfg h) /\ pend (final cfg (h ++ [o])) = pend (final cfg h) /\
-  obs_at cfg h o = Ob RNone [] [].
-Proof. exact hide_show_frame. Qed.
+  obs_at cfg h o = Ob (RDir (dir (final cfg (h ++ [o])))) [] [].
+Proof. exact topo_frame. Qed.
 Print Assumptions C12_hide_show_frame.
+
+(* the service directory, for every history: a topology publication lists exactly the hosted
+   services it does not leave out and stamps each with the node state published last at that
+   moment; every other operation - the node publishing a new state included - leaves the
+   directory untouched, so the copies go stale (a node that is retiring keeps being listed as
+   working until the next membership change, and as retiring from then on) *)
+Theorem C12_directory_view : forall cfg h o,
+  (is_topo o = true -> forall n,
+     aget n (dir (final cfg (h ++ [o]))) =
+     if hosted cfg n && negb (hidden (h ++ [o]) n) then Some (last_pub (run cfg h)) else None) /\
+  (is_topo o = false -> dir (final cfg (h ++ [o])) = dir (final cfg h)).
+Proof. exact directory_view. Qed.
+Print Assumptions C12_directory_view.
+
+(* name resolution for the controller (App.GetService) does not look at the state copy: a
+   hosted service is found iff the topology lists it (and a process runs under its name) *)
+Theorem C12_resolution_ignores_state : forall cfg h n,
+  resolvable cfg (final cfg h) n = present cfg n && negb (hidden h n) /\
+  is_some (aget n (dir (final cfg h))) = hosted cfg n && negb (hidden h n).
+Proof. exact resolution_ignores_state. Qed.
+Print Assumptions C12_resolution_ignores_state.
+
+(* command delivery to hosted services is independent of the published state of the node:
+   an accepted retire is sent to every hosted service the directory lists, whatever state copy
+   the entry carries (working, retiring, ...) ... *)
+Theorem C12_retire_delivery_any_state : forall cfg h o n st,
+  is_retire_cmd o = true -> reply_of (obs_at cfg h o) = ROk ->
+  hosted cfg n = true -> aget n (dir (final cfg h)) = Some st ->
+  In (n, KRetire) (sends_of (obs_at cfg h o)).
+Proof. exact retire_delivery_any_state. Qed.
+Print Assumptions C12_retire_delivery_any_state.
+
+(* ... and, for every history: take the membership changes (topology rebuilds) out, wherever
+   they stand - between or during retire, the retired notifications, exit, the stop - and every
+   other operation shows exactly what it showed with them: same replies, same published states,
+   same services told *)
+Theorem C12_rebuild_unobservable : forall cfg h,
+  run cfg (erase_topo h) = erase_obs h (run cfg h).
+Proof. exact rebuild_unobservable. Qed.
+Print Assumptions C12_rebuild_unobservable.
 
 (* the node is (published as) retired or beyond only after every hosted service has reported
    retired - and as soon as all of them have *)
@@ -181,13 +226,43 @@ Example C12_example_unresolvable :
   run [(1, DOk); (2, DOk)]
       [OQueryAll; OHide 2; OCmd CRetire; OShow 2; OSvcCmd 1 SRetired; OCmd CExit; OCmd CWebNodes;
        OCmd CRetire; OSvcCmd 2 SRetired; OCmd CExit]
-  = [Ob RNone [] [(1, KQuery); (2, KQuery)]; Ob RNone [] [];
-     Ob ROk [EPub Retiring] [(1, KRetire)]; Ob RNone [] []; Ob ROk [] [];
+  = [Ob RNone [] [(1, KQuery); (2, KQuery)]; Ob (RDir [(1, Working)]) [] [];
+     Ob ROk [EPub Retiring] [(1, KRetire)]; Ob (RDir [(1, Retiring); (2, Retiring)]) [] []; Ob ROk [] [];
      Ob (RBadState Retiring) [] [];
      Ob (RNodes Retiring [(1, (Retired, true)); (2, (Working, true))]) [] [];
      Ob ROk [EPub Retiring] [(1, KRetire); (2, KRetire)]; Ob ROk [EPub Retired] [];
      Ob ROk [EPub Exiting; EStop] []]
   /\ run [(1, DOk)] [OHide 1; OQueryAll; OShow 1; OCmd CRetire; OQuery 1; OCmd CRetire]
-  = [Ob RNone [] []; Ob RNone [] []; Ob RNone [] []; Ob RNoSupport [] [];
+  = [Ob (RDir []) [] []; Ob RNone [] []; Ob (RDir [(1, Working)]) [] []; Ob RNoSupport [] [];
      Ob RNone [] [(1, KQuery)]; Ob ROk [EPub Retiring] [(1, KRetire)]].
 Proof. vm_compute. split; reflexivity. Qed.
+
+(* cluster membership changes during the life cycle: after the first retire the directory
+   still says working; another node joins, the own services are re-published as retiring; the
+   operator repeats retire (accepted: already retiring) and BOTH services are told again; the
+   same after the node is retired / exiting.  Erasing the membership changes leaves the rest of
+   the trace as it is. *)
+Example C12_example_rebuilds :
+  let cfg := [(1, DOk); (2, DOk)] in
+  let h := [OQueryAll; OCmd CRetire; OCmd CRetire; OTopo 1; OCmd CRetire; OSvcCmd 1 SRetired; OTopo 2;
+            OCmd CWebRetire; ONotify 2; OTopo 1; OCmd CExit; OTopo 0; OStopDone true; OTopo 3] in
+  run cfg h
+  = [Ob RNone [] [(1, KQuery); (2, KQuery)];
+     Ob ROk [EPub Retiring] [(1, KRetire); (2, KRetire)];
+     Ob ROk [EPub Retiring] [(1, KRetire); (2, KRetire)];
+     Ob (RDir [(1, Retiring); (2, Retiring)]) [] [];
+     Ob ROk [EPub Retiring] [(1, KRetire); (2, KRetire)];
+     Ob ROk [] [];
+     Ob (RDir [(1, Retiring); (2, Retiring)]) [] [];
+     Ob ROk [EPub Retiring] [(1, KRetire); (2, KRetire)];
+     Ob RNone [EPub Retired] [];
+     Ob (RDir [(1, Retired); (2, Retired)]) [] [];
+     Ob ROk [EPub Exiting; EStop] [];
+     Ob (RDir [(1, Exiting); (2, Exiting)]) [] [];
+     Ob RNone [EPub Exited] [];
+     Ob (RDir [(1, Exited); (2, Exited)]) [] []]
+  /\ erase_topo h = [OQueryAll; OCmd CRetire; OCmd CRetire; OCmd CRetire; OSvcCmd 1 SRetired;
+                     OCmd CWebRetire; ONotify 2; OCmd CExit; OStopDone true]
+  /\ dir (final cfg [OQueryAll; OCmd CRetire]) = [(1, Working); (2, Working)]
+  /\ holds cfg h (run cfg h) = true.
+Proof. vm_compute. repeat split; reflexivity. Qed.
